@@ -89,7 +89,7 @@ def step_oracle(cfg, s):
         if len(idx) != sel or len(set(idx)) != sel or (rest and min(mse[k] for k in idx) < max(rest)):
             fails.append(f"step at {s['i']}: chosen candidates {idx} are not the {sel} largest squared residuals {mse}")
         for r in cand:
-            if kind == "ode" and not (0.0 <= r[0] <= 1.0) or kind == "statio" and not all(l <= v <= h for v, l, h in zip(r, lo, hi)):
+            if kind == "ode" and not (cfg.get("tmin", 0.0) <= r[0] <= cfg.get("tmin", 0.0) + 1.0) or kind == "statio" and not all(l <= v <= h for v, l, h in zip(r, lo, hi)):
                 fails.append(f"step at {s['i']}: candidate {r} outside the domain")
         frame("t" if kind == "ode" else "x", "mt" if kind == "ode" else "mx", None, sel, [cand[k] for k in idx])
     else:
@@ -102,7 +102,7 @@ def step_oracle(cfg, s):
         if len(ti) != cfg["sel_t"] or len(xi) != cfg["sel_x"]:
             fails.append(f"step at {s['i']}: wrong number of chosen indices")
         for r in ct:
-            if not (0.0 <= r[0] <= 1.0):
+            if not (cfg.get("tmin", 0.0) <= r[0] <= cfg.get("tmin", 0.0) + 1.0):
                 fails.append(f"candidate time {r} outside the domain")
         for r in cx:
             if not all(l <= v <= h for v, l, h in zip(r, lo, hi)):
@@ -158,6 +158,8 @@ def generate(tier, seed, casedir, variant):
                     cfg["n"] = cfg["n_start"] + 2 * cfg["sel_x"]; cfg["nt"] = cfg["nt_start"] + 8 * cfg["sel_t"]
             if j % 3 == 1:
                 cfg["reinit_at"] = rng.randint(2, 4)
+            if kind != "statio":
+                cfg["tmin"] = [0.0, 0.5, -1.0, 2.0][j % 4]       # time domains that do not start at 0
             nruns += 1
             try:
                 steps, fails = observe(cfg)
